@@ -1,4 +1,10 @@
 SPECIFICATION Spec
 CONSTANTS U = "filter" F = "tiny"
+INVARIANT TypeOK
+INVARIANT Compositional
+INVARIANT RoeFalseNeverRaises
+INVARIANT FilterKeeps
+INVARIANT FilterOrder
+INVARIANT Inside
 INVARIANT EmitFilter
 CHECK_DEADLOCK FALSE
